@@ -163,6 +163,7 @@ type Path struct {
 	sched     *Sched
 	notes     []string
 	mapPerm   bool
+	digests   map[string]NF // hash / hex models: same input, same output
 	unwind    int // loop bound stated by the harness (rt.Unwind), 0 = engine default
 	selectChoice bool
 	allocLimit int64
@@ -177,7 +178,7 @@ func newPath(eng *Engine, pf *Portfolio, h *HarnessRun, script []int) *Path {
 	p := &Path{eng: eng, pf: pf, h: h, script: script,
 		atoms: []*Atom{nil}, ivars: []*IVar{nil},
 		depAtom: map[int]bool{}, depVar: map[int]bool{}, nameCount: map[string]int{},
-		reached: map[string]bool{}, funcsSeen: map[string]int64{}}
+		reached: map[string]bool{}, funcsSeen: map[string]int64{}, digests: map[string]NF{}}
 	return p
 }
 
